@@ -50,6 +50,17 @@ R7  (1)(3) writer term <packed length> + ciphertext + signature: pack call decod
     predicate: its truth set must contain [36, +inf) and the condition must fail at 0, where 36 = 4 + 16 + 16 is the
     smallest frame the writer produces (4-byte prefix, one AES block because pad() appends 1..16 bytes, 16-byte
     signature).  A conjunct that is not such a predicate makes the obligation undecided.
+    "a complete packet is not dropped" (both readers; server: `a packet is produced whenever a complete task blob is
+    present`, client: `a frame that holds a complete packet is not skipped`): (2) the branch edges that dominate every
+    EncryptedPacket construction of the reader and the statements that yield / return / append it (intersection over the
+    constructions and over the hand-out statements), plus the conditional expressions / short-circuit operands around the
+    construction; (3) the size n of the packet bytes is `ciphertext length + 16` as a polynomial (read length, slice bounds)
+    after position-aware substitution of single-definition temporaries (`_expand_at`; results of calls other than len /
+    bytes / memoryview ... stay named; `_same_values` checks on the CFG that no rebinding of a remaining local lies between
+    the test and the read); (4) every condition is read as `n op K` in normal form (K folded (6), AES.block_size == 16) and
+    its truth set must contain [32, +inf), 32 = one AES block (pad() appends 1..16 bytes) + 16-byte signature.  Server:
+    a condition that is not such a predicate -> undecided (`<blob> is not None` is dropped, truthiness of the blob is
+    n >= 1); client: conditions that do not mention the decoded frame length are left to the loop obligation above.
 R8  (1)(3) keyword binding of the decrypt_packet call (verify <- self.verify_hmac, one key set via ** _asdict() or
     explicit fields), field / parameter name tables (6), the stored flag traced to the constructor parameter and its default.
 R9  "the packet bytes are the framed bytes" (both framing readers): (3) backward value flow from the ciphertext / signature
@@ -255,7 +266,9 @@ def run(ctx):
         "EncryptedPacket fields, the stream / buffer / offset they are taken from, the decoded length prefix; the reader loop is "
         "walked once with its loop-carried values symbolic, and its continuation condition, read as an interval predicate of the "
         "number of bytes left, must hold whenever a complete frame - at least 4 + 16 + 16 = 36 bytes - is left and fail when "
-        "nothing is left), provenance of the packet bytes (backward value flow from the EncryptedPacket fields of both framing "
+        "nothing is left; the conditions that dominate the construction and the yield of the packet in either reader, read as "
+        "interval predicates of the size of the task blob / of the decoded frame length, must hold for every size >= 16 + 16 = 32, "
+        "so that no complete packet is dropped), provenance of the packet bytes (backward value flow from the EncryptedPacket fields of both framing "
         "readers to the `output` field: only position-based selection and copies / views on the way, no step whose result "
         "depends on the byte values such as strip / replace / split), keyword binding of "
         "decrypt_packet from BeaconKeys. Decides these structural necessary conditions on every path without executing or "
@@ -271,6 +284,9 @@ def run(ctx):
         "reads, for-loops, conditional advances) or whose continuation condition is not a comparison of the remaining length "
         "with a constant: reported as undecided",
         "behaviour of the framing readers on malformed streams (truncated frames, trailing garbage shorter than a frame)",
+        "`a complete packet is not dropped`: conditions in front of the packet that are not comparisons of the blob / frame size "
+        "with a constant (residue tests such as `len(data) % 16`, tests of the built packet's fields, size compared with the "
+        "remaining length), packets built inside comprehensions, drops by exception handlers: reported as undecided / not looked at",
         "R9: packet bytes that reach the EncryptedPacket fields through anything but slices / element access / stream reads / "
         "bytes, bytearray, memoryview, io.BytesIO copies / `or` / conditionals / the value-dependent bytes methods of the table "
         "(helpers that are not inlined, decode/encode, join, concatenation with constants, for-targets, augmented assignment): "
@@ -289,6 +305,12 @@ def run(ctx):
         "smallest frame: dumps() writes a 4-byte prefix, the ciphertext is at least one AES block (R5: pad() appends 1..16 "
         "bytes) and the signature is 16 bytes (R4), so at a frame boundary of a well-formed stream either 0 or >= 36 bytes are left",
         "len(bytes(b)) == len(memoryview(b)) == len(b), and slices of a copy / view hold the same bytes",
+        "smallest packet: a task blob / frame payload of 32 bytes (one AES block, because pad() appends 1..16 bytes (R5), plus the "
+        "16-byte signature (R4)) is a complete packet, so a necessary condition for handing out the packet must hold for every "
+        "size >= 32; a statement is executed only if every branch edge that dominates it is taken",
+        "a local bound once to the result of a call denotes that result wherever the binding dominates; the value of a local at "
+        "two reads ordered by dominance is the same if no definition of it lies on a path from the first read to the second that "
+        "does not pass the first read again",
         "interval reading of `r op K` for an integer r >= 0 (r > K holds exactly on [K + 1, +inf), r >= K on [K, +inf), ...)",
         "R9 lemma: ciphertext (AES-CBC output) and signature (truncated HMAC-SHA256) are opaque binary strings - every byte value "
         "can occur at every position, in particular first and last - so a bytes method whose result depends on byte values "
@@ -1542,10 +1564,11 @@ def _rem_conjuncts(test, polyfn, rems, truthy):
     return out
 
 
-def _pred_gap(op, k):
+def _pred_gap(op, k, m=None):
     """Interval reading of the predicate `rem op k` on the integer rem >= 0:
-    (the part (lo, hi | None = unbounded) of [MIN_FRAME, +inf) on which it is false | None, whether it holds at rem == 0)."""
-    m = MIN_FRAME
+    (the part (lo, hi | None = unbounded) of [m, +inf) on which it is false | None, whether it holds at rem == 0);
+    m defaults to MIN_FRAME."""
+    m = MIN_FRAME if m is None else m
     if op == ">":  # holds on [k + 1, +inf)
         return ((m, k) if k >= m else None), 0 > k
     if op == ">=":  # holds on [k, +inf)
@@ -2286,13 +2309,289 @@ def _is_end_of(ctx, g, e, stream, wrapped, loop):
     return None
 
 
+# ---------------------------------------------------------------------------- R7: a complete task blob is not dropped
+# Smallest task blob the writer side produces: one AES block (pad() always appends 1..16 bytes, R5) followed by the
+# 16-byte signature (R4).  Every blob of MIN_PACKET or more bytes may be a complete packet.
+MIN_PACKET = BLOCK + SIG_LEN
+BTEXT = "a packet is produced whenever a complete task blob is present"
+PTEXT = "a frame that holds a complete packet is not skipped"
+
+
+_PURE_CALLS = {"len", "bytes", "bytearray", "memoryview", "int", "bool", "abs", "min", "max"}
+
+
+def _expand_at(ctx, f, e, st, uses, depth=0):
+    """Expression e, evaluated in statement st, with every single-definition temporary whose definition dominates st
+    replaced by its definition (recursively, the definition being evaluated in *its* statement).  A definition that calls
+    anything but the value-only builtins of _PURE_CALLS is not substituted (a stream read happens once: the local that
+    holds its result is the value).  Every local that is left
+    (such a result, several definitions, rebound parameter, loop / with target) is recorded in `uses` as (name, statement it is read in),
+    so that `_same_values` can tell whether all the reads see one value."""
+    fn = f.node
+    cfg = ctx.cfg(f)
+    ps = set(params(fn))
+
+    class _X(ast.NodeTransformer):
+        def visit_Name(self, node):
+            if not isinstance(node.ctx, ast.Load):
+                return node
+            defs = assignments_to(fn, node.id)
+            if not defs:
+                return node  # parameter that is never rebound, global, builtin
+            if node.id not in ps and len(defs) == 1 and depth < 8:
+                d, v = defs[0]
+                if v is not None and isinstance(d, (ast.Assign, ast.AnnAssign)) and d is not st and cfg.has(d) and cfg.has(st) \
+                        and cfg.dominates(cfg.node(d), cfg.node(st)) and not any(isinstance(x, ast.Name) and x.id == node.id for x in ast.walk(v)) \
+                        and all(dotted(x.func) in _PURE_CALLS for x in ast.walk(v) if isinstance(x, ast.Call)):
+                    return _expand_at(ctx, f, v, d, uses, depth + 1)
+            uses.append((node.id, st))
+            return node
+
+        def visit_Lambda(self, node):
+            return node
+
+    return _X().visit(copy.deepcopy(e))
+
+
+def _same_values(ctx, f, uses):
+    """None if every local recorded by `_expand_at` denotes the same value at all the statements it is read in: the reads
+    are ordered by dominance and no definition of the local lies on a path from the earlier read to the later one that does
+    not pass the earlier read again (device 2/3: reachability on the CFG).  Else a description of the obstacle."""
+    cfg = ctx.cfg(f)
+    by = {}
+    for n, st in uses:
+        by.setdefault(n, {})[id(st)] = st
+    for n, sts in by.items():
+        sts = list(sts.values())
+        if any(not cfg.has(s) for s in sts):
+            return f"`{n}` is read in a statement that is not on the CFG"
+        dn = []
+        for d, _v in assignments_to(f.node, n):
+            if not isinstance(d, ast.stmt) or not cfg.has(d):
+                return f"a definition of `{n}` is not on the CFG"
+            dn.append(cfg.edge_node(d, "iter") if isinstance(d, (ast.For, ast.AsyncFor)) else cfg.node(d))
+        for a in sts:
+            for b in sts:
+                if a is b:
+                    continue
+                na, nb = cfg.node(a), cfg.node(b)
+                if cfg.dominates(na, nb):
+                    for d in dn:
+                        if (d == na or cfg.reaches(na, d)) and cfg.reaches(d, nb, avoiding=[na]):
+                            return f"`{n}` may be rebound between the places where it is read"
+                elif not cfg.dominates(nb, na):
+                    return f"the places where `{n}` is read are not ordered by dominance"
+    return None
+
+
+def _dom_edges(ctx, f, st):
+    """{(id(branch statement), polarity): (branch statement, polarity)} of the branch edges that dominate statement st."""
+    cfg = ctx.cfg(f)
+    out = {}
+    if st is None or not cfg.has(st):
+        return None
+    target = cfg.node(st)
+    for _n, s in cfg.stmt.items():
+        if isinstance(s, (ast.If, ast.While)):
+            for pol in (True, False):
+                try:
+                    e = cfg.edge_node(s, "true" if pol else "false")
+                except Exception:
+                    continue
+                if e in cfg.g and cfg.dominates(e, target):
+                    out[(id(s), pol)] = (s.test, pol, s)
+    return out
+
+
+def _expr_edges(f, node):
+    """The same for the conditions *inside* the statement of `node`: conditional expressions and short-circuit operators
+    that decide whether `node` is evaluated.  None when node sits in a comprehension / lambda (evaluated per element)."""
+    fv = FuncView.of(f.node)
+    st = fv.stmt_of(node)
+    out = {}
+    child = node
+    for a in fv.ancestors(node):
+        if a is st or isinstance(a, ast.stmt):
+            break
+        if isinstance(a, (ast.ListComp, ast.SetComp, ast.DictComp, ast.GeneratorExp, ast.Lambda)):
+            return None
+        if isinstance(a, ast.IfExp) and child is not a.test:
+            out[(id(a), child is a.body)] = (a.test, child is a.body, st)
+        if isinstance(a, ast.BoolOp):
+            i = next((j for j, v in enumerate(a.values) if v is child), 0)
+            for v in a.values[:i]:
+                out[(id(v), isinstance(a.op, ast.And))] = (v, isinstance(a.op, ast.And), st)
+        child = a
+    return out
+
+
+def _emit_stmts(f, ctor):
+    """The statements that hand the packet built by `ctor` to the caller (yield / return / <list>.append), when the packet
+    is first bound to a local; [] when the constructing statement itself does (or nothing is found)."""
+    fv = FuncView.of(f.node)
+    st = fv.stmt_of(ctor)
+    if st is None or any(isinstance(x, (ast.Yield, ast.YieldFrom, ast.Return)) and any(y is ctor for y in ast.walk(x)) for x in ast.walk(st)):
+        return []
+    if not (isinstance(st, ast.Assign) and len(st.targets) == 1 and isinstance(st.targets[0], ast.Name)):
+        return []
+    p = st.targets[0].id
+    out = []
+    for s in statements(f.node):
+        if s is st or isinstance(s, (ast.If, ast.While, ast.For, ast.AsyncFor, ast.With, ast.AsyncWith, ast.Try)):
+            continue
+        for x in ast.walk(s):
+            v = None
+            if isinstance(x, (ast.Yield, ast.YieldFrom, ast.Return)):
+                v = x.value
+            elif isinstance(x, ast.Call) and isinstance(x.func, ast.Attribute) and x.func.attr in ("append", "extend", "appendleft", "add", "put"):
+                v = ast.Tuple(elts=list(x.args), ctx=ast.Load())
+            if v is not None and any(isinstance(y, ast.Name) and y.id == p and isinstance(y.ctx, ast.Load) for y in ast.walk(v)):
+                out.append(s)
+                break
+    return out
+
+
+def _r7_complete_blob(ctx, s, text=BTEXT, partial=False, what="blob"):
+    """Server reader: the conditions under which the one packet of a task blob is built and handed out - the branch edges
+    that dominate every EncryptedPacket construction (and the statements that yield it) - read as predicates `n op K` of the
+    number n of bytes of the blob (ciphertext length + 16, in polynomial normal form), must hold for every n >= MIN_PACKET:
+    a blob of one AES block plus the signature is a complete packet (plaintext of 0..15 bytes).
+    Client reader (partial=True): the same for the payload of one frame, n = the decoded frame length; conditions that do not
+    mention n (the loop test, end-of-stream guards) are the business of "loop runs while a complete frame is left" and are
+    left out here."""
+    fv = FuncView.of(s.node)
+    pk = _reader_packets(ctx, s)
+    located = [m for m in pk if m["mode"]]
+    if not located:
+        ctx.undecided("R7", "DOM", s, text, "packet fields not located: " + ("; ".join(m["why"] for m in pk) or "no EncryptedPacket built"), s.node)
+        return
+    uses = []
+
+    def polyfn(e):
+        return _fpoly(_noview(e)) if e is not None else None
+
+    # ---------------- the number of bytes of the blob, from the ciphertext length of every located construction
+    rems = []
+    for m in located:
+        ct = m["ct"]
+        st = fv.stmt_of(ct)
+        ctlen = None
+        if m["mode"] == "read":
+            ctlen = polyfn(_expand_at(ctx, s, ct.args[0], st, uses))
+        else:
+            tail = _tail_form(m)
+            sl = ct.slice
+            if tail is not None:
+                buf = _noview(_expand_at(ctx, s, ct.value, st, uses))
+                ctlen = polyfn(ast.Call(func=ast.Name(id="len", ctx=ast.Load()), args=[buf], keywords=[])) - absint.SymPoly.const(tail[0])
+            elif sl.step is None and sl.upper is not None and (sl.lower is None or is_const(sl.lower, 0)):
+                ctlen = polyfn(_expand_at(ctx, s, sl.upper, st, uses))
+            elif sl.step is None and sl.upper is not None:
+                up, lo = polyfn(_expand_at(ctx, s, sl.upper, st, uses)), polyfn(_expand_at(ctx, s, sl.lower, st, uses))
+                ctlen = up - lo if up is not None and lo is not None else None
+        if ctlen is None or _int_const(ctlen) is not None:
+            ctx.undecided("R7", "DOM", s, text, f"the length of the ciphertext has no polynomial normal form over the length of the {what}", m["ctor"])
+            return
+        rems.append(ctlen + absint.SymPoly.const(SIG_LEN))
+    rem = rems[0]
+    if any(r != rem for r in rems[1:]):
+        ctx.undecided("R7", "DOM", s, text, f"the packet constructions of the reader do not agree on the size of the {what}", s.node)
+        return
+
+    def truthy(e):
+        # a bytes-like value used as a test: it is not empty
+        e = _noview(e)
+        if isinstance(e, (ast.Name, ast.Attribute, ast.Subscript, ast.Call, ast.BoolOp, ast.IfExp)):
+            p = polyfn(ast.Call(func=ast.Name(id="len", ctx=ast.Load()), args=[e], keywords=[]))
+            if p is not None and p == rem:
+                return 0
+        return None
+
+    # ---------------- the branch edges every construction (and every hand-out of it) is dominated by
+    common = None
+    for m in pk:
+        edges = _dom_edges(ctx, s, fv.stmt_of(m["ctor"]))
+        inner = _expr_edges(s, m["ctor"])
+        if edges is None or inner is None:
+            ctx.undecided("R7", "DOM", s, text, "a packet construction is not on the CFG or sits inside a comprehension / lambda", m["ctor"])
+            return
+        edges.update(inner)
+        em = None
+        for e in _emit_stmts(s, m["ctor"]):
+            de = _dom_edges(ctx, s, e) or {}
+            em = de if em is None else {k: v for k, v in em.items() if k in de}
+        edges.update(em or {})
+        common = edges if common is None else {k: v for k, v in common.items() if k in edges}
+    conj = []
+    atoms = set(rem.atoms())
+    for test, pol, at in (common or {}).values():
+        tuses, kept = [], len(conj)
+        t = nnf(_truth(_noview(_expand_at(ctx, s, test, at, tuses))), not pol)
+        for c in conjuncts(t):
+            nn = None
+            if isinstance(c, ast.Compare) and len(c.ops) == 1 and isinstance(c.ops[0], (ast.Is, ast.IsNot)):
+                l, r = c.left, c.comparators[0]
+                for a, b in ((l, r), (r, l)):
+                    if isinstance(b, ast.Constant) and b.value is None and truthy(a) is not None:
+                        nn = isinstance(c.ops[0], ast.IsNot)
+            if nn is True:
+                continue  # bytes that are present are not None
+            if nn is False:
+                conj.append(dict(text=src(c), pred=("<", 0), idx=0))  # never true for bytes that are present
+                continue
+            got = _rem_conjuncts(c, polyfn, [rem], truthy)
+            if partial and any(g["pred"] is None for g in got) and not any(
+                    (dotted(x) in atoms or src(x) in atoms) for x in ast.walk(c) if isinstance(x, (ast.Name, ast.Attribute, ast.Call, ast.Subscript))):
+                continue  # says nothing about the size of the payload
+            conj += got
+        if len(conj) > kept:
+            uses += tuses
+    gaps, unknown = [], []
+    for c in conj:
+        if c["pred"] is None:
+            unknown.append(c["text"])
+            continue
+        gap, _z = _pred_gap(*c["pred"], m=MIN_PACKET)
+        if gap is not None:
+            rng = f"{gap[0]} bytes" if gap[0] == gap[1] else (f"{gap[0]}..{gap[1]} bytes" if gap[1] is not None else f"{gap[0]} or more bytes")
+            g = f"`{c['text']}` ({what} size {c['pred'][0]} {c['pred'][1]}) is false for a {what} of {rng}"
+            if g not in gaps:
+                gaps.append(g)
+    why = (f"a {what} of {MIN_PACKET} bytes (one AES block + {SIG_LEN}-byte signature, i.e. a plaintext of 0..15 bytes) is a complete packet; "
+           f"{what} size = {rem!r}")
+    obstacle = _same_values(ctx, s, uses)
+    if obstacle is not None:
+        ctx.undecided("R7", "DOM", s, text, obstacle, located[0]["ctor"])
+        return
+    # hand-out statements that do not belong to a construction seen here may produce the packet some other way
+    mine = {id(fv.stmt_of(m["ctor"])) for m in pk} | {id(e) for m in pk for e in _emit_stmts(s, m["ctor"])}
+    other = [x for st in statements(s.node) for x in ast.walk(st) if not isinstance(st, (ast.If, ast.While, ast.For, ast.AsyncFor, ast.With, ast.AsyncWith, ast.Try))
+             and isinstance(x, (ast.Yield, ast.YieldFrom, ast.Return)) and x.value is not None and id(st) not in mine]
+    if gaps and other:
+        ctx.undecided("R7", "DOM", s, text, f"the reader also hands out values that are not built here ({src(other[0])[:60]}): the conditions in front of "
+                      "the located construction are not necessary for a packet", located[0]["ctor"])
+        return
+    if gaps:
+        ctx.ob("R7", "DOM", s, text, False, f"no packet is produced although a complete {what} is there: " + "; ".join(gaps) + " - " + why, located[0]["ctor"])
+        return
+    if unknown:
+        ctx.undecided("R7", "DOM", s, text, f"condition in front of the packet not understood as a test of the size of the {what}: "
+                      + "; ".join(f"`{u}`" for u in unknown), located[0]["ctor"])
+        return
+    ctx.ob("R7", "DOM", s, text, True, (f"every condition in front of the packet holds for a {what} of {MIN_PACKET} or more bytes: "
+           + "; ".join(f"`{c['text']}`" for c in conj)) if conj else ("no condition on the size of the payload in front of the packet" if partial else "the packet is built unconditionally"), located[0]["ctor"])
+
+
 def r7(ctx):
     _r7_writer(ctx)
     s = ctx.repo.func("c2.ServerC2Data.iter_encrypted_packets")
     for m in _reader_packets(ctx, s):
         if m["mode"]:
             _r7_order(ctx, s, m)
-    _r7_client(ctx, ctx.repo.func("c2.ClientC2Data.iter_encrypted_packets"))
+    _r7_complete_blob(ctx, s)
+    g = ctx.repo.func("c2.ClientC2Data.iter_encrypted_packets")
+    _r7_client(ctx, g)
+    _r7_complete_blob(ctx, g, text=PTEXT, partial=True, what="frame payload")
 
 
 # ---------------------------------------------------------------------------- R8
